@@ -35,7 +35,30 @@ def nshards(tier):
     return 16
 
 
+_VARIANTS = {}
+
+
+def model_variant(Model, name):
+    """The scripted model class with an extension mixin in front of it (the mixins must be transparent to solve_t / hooks)."""
+    key = (id(Model), name)
+    if key not in _VARIANTS:
+        from fsic.extensions import AliasMixin, TracerMixin
+        from fsic.extensions.model import PandasIndexFeaturesMixin
+        if name == 'plain':
+            _VARIANTS[key] = Model
+        else:
+            mixin = {'traced': TracerMixin, 'aliased': AliasMixin, 'pandas': PandasIndexFeaturesMixin}[name]
+            attrs = {'ALIASES': {'Alpha': 'A', 'Beta': 'B'}} if name == 'aliased' else {}
+            _VARIANTS[key] = type(f'{name.capitalize()}Scripted', (mixin, Model), attrs)
+    return _VARIANTS[key]
+
+
 def run_case(ctx, Model, case):
+    if 'model_class' not in case:
+        from .common import h64
+        case['model_class'] = ['plain', 'plain', 'plain', 'traced', 'aliased', 'pandas'][h64(['cls', case]) % 6]
+    ctx.seen('model_classes', case['model_class'])
+    Model = model_variant(Model, case['model_class'])
     if 'write_mode' not in case:
         # how the scripted model stores its outcome: in place, or through a whole-series write (deterministic in the case)
         from .common import h64
